@@ -25,7 +25,8 @@
 (* stated over the observation layer only, so the same formulas judge the  *)
 (* design model here and recorded executions in ExpectedResponseTrace.     *)
 (*                                                                         *)
-(* Switches (TRUE = repaired design, FALSE = what the pinned code does):   *)
+(* Switches (TRUE = repaired design, FALSE = what the code did when it was *)
+(* first checked, F12-1..5; fixes/C12-*.diff):                             *)
 (*   SkipDoneFutures      on_message_received completes only waiters that  *)
 (*                        are not done                            (F12-2)  *)
 (*   GuardSetException    wait_for_* does not set_exception on its own     *)
@@ -33,6 +34,8 @@
 (*   AllFieldMatchers     matches() goes on after a predicate     (F12-3)  *)
 (*   TicketBeforeRegister a command whose matcher value is produced by     *)
 (*                        send() has it when the waiter is built  (F12-4)  *)
+(*   ReleaseWhenSendCancelled execute() also releases its waiter when it is *)
+(*                        cancelled while command.send() runs       (F12-5) *)
 (*   LiveListAtCompletion the completion loop walks the waiter list as it  *)
 (*                        is AFTER the handlers / listeners of the message *)
 (*                        ran (they may suspend), testing done() there;    *)
@@ -40,21 +43,34 @@
 (*                        the message comes in, before its handlers run    *)
 (*                        (not the pinned code: a design that was tried    *)
 (*                        against the check, seeded change C12-b2)         *)
+(*   TimeoutForwarded     wait_for_peer_message waits as long as its caller *)
+(*                        asked; FALSE: always the library's 10 s (a design *)
+(*                        tried against the check, seeded change C12-c3)    *)
+(*   RegisterAfterSend    the transfer negotiation (request_place_in_queue) *)
+(*                        creates its waiter after the request went out, so *)
+(*                        a failed / cancelled send leaves none; FALSE: it  *)
+(*                        is created first and not released on those paths  *)
+(*                        (seeded change C12-c2)                            *)
 (***************************************************************************)
-EXTENDS Naturals, Sequences, FiniteSets, TLC
+EXTENDS Integers, Sequences, FiniteSets, TLC
 
 CONSTANTS
   Callers,          \* 1..N; callers are started in increasing order
   Specs,            \* set of waiter specs [conn, cls, m1, m2, late, ex] the environment chooses from
                     \*   (late: m1 is a value that command.send() produces; ex: a command exists for it)
   Msgs,             \* set of messages [conn, cls, f1, f2] the environment chooses from
-  Apis,             \* subset of {"wait", "fut", "exec"}
+  Apis,             \* subset of {"wait", "fut", "exec", "place"}  ("place": TransferManager.request_place_in_queue,
+                    \*   the library's own request/reply negotiation: send, then create_peer_response_future + timeout)
+  Timeouts,         \* subset of {"short", "long"}: the timeout the caller asks for, below / above the library's
+                    \*   built-in 10 s
+  MaxElapse,        \* number of times the clock is moved to just BEFORE a caller's deadline
   MaxFeeds,         \* total number of messages fed
   MaxBatch,         \* frames per write (handled back-to-back by one reader step)
   MaxCancel, MaxDue, MaxSendFail,
   MaxSlow,          \* messages whose handling suspends in a listener of MessageReceivedEvent
   SendHops,         \* loop slots execute() spends in command.send() (gather + drain: 4)
-  SkipDoneFutures, GuardSetException, AllFieldMatchers, TicketBeforeRegister, LiveListAtCompletion
+  SkipDoneFutures, GuardSetException, AllFieldMatchers, TicketBeforeRegister, LiveListAtCompletion,
+  ReleaseWhenSendCancelled, TimeoutForwarded, RegisterAfterSend
 
 \* ---------------------------------------------------------------------------
 \* Matching, transcribed from the property statement: expected type, expected
@@ -103,28 +119,33 @@ VARIABLES
   susp,      \* per connection: <<>>, or <<[m, idx, snap, rel]>>: the reader is suspended inside
              \*   on_message_received for message m (= hist[idx]), in a listener that waits to be released;
              \*   snap: the waiters that were not done when m came in; rel: the release is on its way
-  nfed, ncancel, ndue, nsf, nslow,
+  el,        \* per caller: the clock has been moved to just before its deadline
+  nfed, ncancel, ndue, nsf, nslow, nel,
   \* observation
   hist,      \* messages in the order the client started handling them
   fin,       \* indexes in hist of the messages whose handling is finished (waiters completed)
-  regAt,     \* per caller: 0, or index in hist of the first message that came in after it asked
+  mayAt,     \* per caller: 0, or index in hist of the first message that came in after it entered the call
+  regAt,     \* per caller: 0, or index in hist of the first message that came in after it asked (= mayAt, except
+             \*   for the negotiation, whose request is made once its request message went out)
   infl,      \* per caller: the messages that were being handled (come in, not finished) when it asked
   cspec,     \* per caller: what it asked for [conn, cls, m1, m2, api, late]
   out,       \* per caller: [kind |-> "none" | "result" | "exc", j |-> index in hist, exc |-> class name]
   outN,      \* per caller: number of outcomes seen
   stim,      \* per caller: subset of {"due", "cancel", "sendfail"} given so far
   resid,     \* done waiters still registered, as last observed at a quiescent moment
+  regn,      \* waiters registered beyond (> 0) / short of (< 0) the requests still waiting, as last observed at
+             \*   a quiescent moment
   broken,    \* number of messages whose handling raised ("error during callback")
   quiet      \* this state is a quiescent observation point
 
-mech == <<ready, dueNow, buf, rsched, lst, wst, wres, wspec, cpc, creq, mustc, expiring, armed, sfail, dead, susp,
-          nfed, ncancel, ndue, nsf, nslow>>
-obs  == <<hist, fin, regAt, infl, cspec, out, outN, stim, resid, broken, quiet>>
+mech == <<ready, dueNow, buf, rsched, lst, wst, wres, wspec, cpc, creq, mustc, expiring, armed, sfail, dead, susp, el,
+          nfed, ncancel, ndue, nsf, nslow, nel>>
+obs  == <<hist, fin, mayAt, regAt, infl, cspec, out, outN, stim, resid, regn, broken, quiet>>
 vars == <<mech, obs>>
 
 Conns == {"S", "P1", "P2"}
 D == [k |-> "D"]
-NoSpec == [conn |-> "S", cls |-> "A", m1 |-> "any", m2 |-> "any", api |-> "none", late |-> FALSE]
+NoSpec == [conn |-> "S", cls |-> "A", m1 |-> "any", m2 |-> "any", api |-> "none", late |-> FALSE, tm |-> "short"]
 NoOut == [kind |-> "none", j |-> 0, exc |-> ""]
 
 \* ---------------------------------------------------------------------------
@@ -133,6 +154,7 @@ NoOut == [kind |-> "none", j |-> 0, exc |-> ""]
 ObsInit ==
   /\ hist = <<>>
   /\ fin = {}
+  /\ mayAt = [c \in Callers |-> 0]
   /\ regAt = [c \in Callers |-> 0]
   /\ infl = [c \in Callers |-> {}]
   /\ cspec = [c \in Callers |-> NoSpec]
@@ -140,18 +162,28 @@ ObsInit ==
   /\ outN = [c \in Callers |-> 0]
   /\ stim = [c \in Callers |-> {}]
   /\ resid = 0
+  /\ regn = 0
   /\ broken = 0
   /\ quiet = FALSE
 
-\* caller c asks for a reply (the call into wait_for_* / create_* / execute)
-ObsAsk(c, s, fails) ==
-  /\ regAt[c] = 0
-  /\ regAt' = [regAt EXCEPT ![c] = Len(hist) + 1]
+\* caller c enters the call (wait_for_* / create_* / execute / request_place_in_queue); unless
+\* `deferred`, that is also the moment its request is made
+ObsAsk(c, s, fails, deferred) ==
+  /\ mayAt[c] = 0
+  /\ mayAt' = [mayAt EXCEPT ![c] = Len(hist) + 1]
+  /\ regAt' = [regAt EXCEPT ![c] = IF deferred THEN 0 ELSE Len(hist) + 1]
   /\ infl' = [infl EXCEPT ![c] = (1..Len(hist)) \ fin]
   /\ cspec' = [cspec EXCEPT ![c] = s]
   /\ stim' = [stim EXCEPT ![c] = IF fails THEN @ \cup {"sendfail"} ELSE @]
   /\ quiet' = FALSE
-  /\ UNCHANGED <<hist, fin, out, outN, resid, broken>>
+  /\ UNCHANGED <<hist, fin, out, outN, resid, regn, broken>>
+
+\* the request message of a negotiation is out: from now on a reply must reach it
+ObsSent(c) ==
+  /\ mayAt[c] > 0 /\ regAt[c] = 0
+  /\ regAt' = [regAt EXCEPT ![c] = Len(hist) + 1]
+  /\ quiet' = FALSE
+  /\ UNCHANGED <<hist, fin, mayAt, infl, cspec, out, outN, stim, resid, regn, broken>>
 
 \* messages ms came in (their handlers / listeners start, in order); the handling of the messages
 \* with indexes js finished (their waiters were completed); nerr of those raised
@@ -160,25 +192,26 @@ ObsHandled(ms, js, nerr) ==
   /\ fin' = fin \cup js
   /\ broken' = broken + nerr
   /\ quiet' = FALSE
-  /\ UNCHANGED <<regAt, infl, cspec, out, outN, stim, resid>>
+  /\ UNCHANGED <<mayAt, regAt, infl, cspec, out, outN, stim, resid, regn>>
 
 ObsOutcome(c, o) ==
   /\ out' = [out EXCEPT ![c] = IF outN[c] = 0 THEN o ELSE @]
   /\ outN' = [outN EXCEPT ![c] = @ + 1]
   /\ quiet' = FALSE
-  /\ UNCHANGED <<hist, fin, regAt, infl, cspec, stim, resid, broken>>
+  /\ UNCHANGED <<hist, fin, mayAt, regAt, infl, cspec, stim, resid, regn, broken>>
 
 ObsStim(c, what) ==
   /\ stim' = [stim EXCEPT ![c] = @ \cup {what}]
   /\ quiet' = FALSE
-  /\ UNCHANGED <<hist, fin, regAt, infl, cspec, out, outN, resid, broken>>
+  /\ UNCHANGED <<hist, fin, mayAt, regAt, infl, cspec, out, outN, resid, regn, broken>>
 
-ObsQuiet(ndone) ==
+ObsQuiet(ndone, n) ==
   /\ quiet' = TRUE
   /\ resid' = ndone
-  /\ UNCHANGED <<hist, fin, regAt, infl, cspec, out, outN, stim, broken>>
+  /\ regn' = n - Cardinality({c \in Callers : regAt[c] > 0 /\ out[c].kind = "none"})
+  /\ UNCHANGED <<hist, fin, mayAt, regAt, infl, cspec, out, outN, stim, broken>>
 
-ObsSame == UNCHANGED <<hist, fin, regAt, infl, cspec, out, outN, stim, resid, broken>> /\ quiet' = FALSE
+ObsSame == UNCHANGED <<hist, fin, mayAt, regAt, infl, cspec, out, outN, stim, resid, regn, broken>> /\ quiet' = FALSE
 
 \* ---------------------------------------------------------------------------
 Init ==
@@ -198,7 +231,8 @@ Init ==
   /\ sfail = [c \in Callers |-> FALSE]
   /\ dead = {}
   /\ susp = [x \in Conns |-> <<>>]
-  /\ nfed = 0 /\ ncancel = 0 /\ ndue = 0 /\ nsf = 0 /\ nslow = 0
+  /\ el = [c \in Callers |-> FALSE]
+  /\ nfed = 0 /\ ncancel = 0 /\ ndue = 0 /\ nsf = 0 /\ nslow = 0 /\ nel = 0
   /\ ObsInit
 
 AtD == Head(ready) = D
@@ -210,25 +244,30 @@ NDone == Cardinality({i \in 1..Len(lst) : wst[lst[i]] # "pending"})
 \* ----- environment ----------------------------------------------------------
 
 \* asyncio.create_task(caller): its first step is appended to ready
-Reg(c, s, api, fails) ==
+UsesSend(a) == a \in {"exec", "place"}
+Reg(c, s, api, fails, tm) ==
   /\ MayAct
   /\ cpc[c] = "idle"
   /\ \A x \in Callers : x < c => cpc[x] # "idle"
   /\ api \in Apis
+  /\ tm \in Timeouts
   /\ s.late => (api = "exec" /\ \A x \in Callers : ~cspec[x].late)   \* one ticket-bearing command per run
-  /\ api = "exec" => (s.ex /\ \A x \in Callers : ~sfail[x])          \* a failed send closes the connection
-  /\ fails => (api = "exec" /\ nsf < MaxSendFail)
+  /\ api = "exec" => s.ex
+  /\ api = "place" => (s.pl /\ tm = CHOOSE t \in Timeouts : TRUE)   \* (its timeout is the library's own)
+  /\ UsesSend(api) => \A x \in Callers : ~sfail[x]                   \* a failed send closes the connection
+  /\ fails => (UsesSend(api) /\ nsf < MaxSendFail)
   /\ fails => \A x \in Callers :                                     \* (writes fail for the whole connection)
                 (cpc[x] \in {"spawned", "sending", "cancelling"}) => cspec[x].conn # s.conn
   /\ cpc' = [cpc EXCEPT ![c] = "spawned"]
   /\ cspec' = [cspec EXCEPT ![c] = [conn |-> s.conn, cls |-> s.cls, m1 |-> s.m1, m2 |-> s.m2,
-                                    api |-> api, late |-> s.late]]
+                                    api |-> api, late |-> s.late, tm |-> tm]]
   /\ sfail' = [sfail EXCEPT ![c] = fails]
   /\ nsf' = IF fails THEN nsf + 1 ELSE nsf
   /\ ready' = Append(ready, [k |-> "first", c |-> c])
   /\ quiet' = FALSE
-  /\ UNCHANGED <<dueNow, buf, rsched, lst, wst, wres, wspec, creq, mustc, expiring, armed, dead, susp, nfed, ncancel, ndue, nslow,
-                 hist, fin, regAt, infl, out, outN, stim, resid, broken>>
+  /\ UNCHANGED <<dueNow, buf, rsched, lst, wst, wres, wspec, creq, mustc, expiring, armed, dead, susp, el,
+                 nfed, ncancel, ndue, nslow, nel,
+                 hist, fin, mayAt, regAt, infl, out, outN, stim, resid, regn, broken>>
 
 \* one write of several frames on one connection -> one feed_data handle
 \* sl: 0, or the number of the frame whose handling will suspend in a listener
@@ -243,7 +282,7 @@ Feed(b, sl) ==
                               ms |-> [i \in 1..Len(b) |-> [m |-> b[i], slow |-> (i = sl)]]])
   /\ nfed' = nfed + Len(b)
   /\ nslow' = IF sl > 0 THEN nslow + 1 ELSE nslow
-  /\ UNCHANGED <<dueNow, buf, rsched, lst, wst, wres, wspec, cpc, creq, mustc, expiring, armed, sfail, dead, susp, ncancel, ndue, nsf>>
+  /\ UNCHANGED <<dueNow, buf, rsched, lst, wst, wres, wspec, cpc, creq, mustc, expiring, armed, sfail, dead, susp, el, ncancel, ndue, nsf, nel>>
   /\ ObsSame
 
 \* the application lets the suspended listener go on (asyncio.Event.set(): the reader task's
@@ -253,8 +292,8 @@ Release(conn) ==
   /\ susp[conn] # <<>> /\ ~susp[conn][1].rel
   /\ susp' = [susp EXCEPT ![conn] = <<[@[1] EXCEPT !.rel = TRUE]>>]
   /\ ready' = Append(ready, [k |-> "resume", conn |-> conn])
-  /\ UNCHANGED <<dueNow, buf, rsched, lst, wst, wres, wspec, cpc, creq, mustc, expiring, armed, sfail, dead,
-                 nfed, ncancel, ndue, nsf, nslow>>
+  /\ UNCHANGED <<dueNow, buf, rsched, lst, wst, wres, wspec, cpc, creq, mustc, expiring, armed, sfail, dead, el,
+                 nfed, ncancel, ndue, nsf, nslow, nel>>
   /\ ObsSame
 
 \* Task.cancel() (CPython tasks.py): a task waiting for a pending future cancels the future,
@@ -286,24 +325,43 @@ Cancel(c) ==
   /\ TaskCancel(c, ready)
   /\ ncancel' = ncancel + 1
   /\ ObsStim(c, "cancel")
-  /\ UNCHANGED <<dueNow, buf, rsched, lst, wres, wspec, expiring, armed, sfail, dead, susp, nfed, ndue, nsf, nslow>>
+  /\ UNCHANGED <<dueNow, buf, rsched, lst, wres, wspec, expiring, armed, sfail, dead, susp, el, nfed, ndue, nsf, nslow, nel>>
 
-\* the clock passes the caller's deadline: its timer handle enters ready at the next iteration
+\* how long a caller really waits compared with what it asked for
+WaitsShorter(c) == ~TimeoutForwarded /\ cspec[c].api = "wait" /\ cspec[c].conn # "S" /\ cspec[c].tm = "long"
+WaitsLonger(c)  == ~TimeoutForwarded /\ cspec[c].api = "wait" /\ cspec[c].conn # "S" /\ cspec[c].tm = "short"
+
+\* the clock passes the deadline the caller asked for: its timer handle enters ready at the next iteration
 Due(c) ==
   /\ MayAct
   /\ ndue < MaxDue
   /\ armed[c]
   /\ "due" \notin stim[c]
   /\ \A x \in Callers : cpc[x] \notin {"sending", "cancelling"}   \* (the harness keeps deadlines in planned order)
-  /\ dueNow' = Append(dueNow, c)
+  /\ dueNow' = IF WaitsLonger(c) THEN dueNow ELSE Append(dueNow, c)
   /\ ndue' = ndue + 1
   /\ ObsStim(c, "due")
-  /\ UNCHANGED <<ready, buf, rsched, lst, wst, wres, wspec, cpc, creq, mustc, expiring, armed, sfail, dead, susp, nfed, ncancel, nsf, nslow>>
+  /\ UNCHANGED <<ready, buf, rsched, lst, wst, wres, wspec, cpc, creq, mustc, expiring, armed, sfail, dead, susp, el,
+                 nfed, ncancel, nsf, nslow, nel>>
+
+\* the clock is moved to just before the deadline the caller asked for: nothing happens
+Elapse(c) ==
+  /\ MayAct
+  /\ nel < MaxElapse
+  /\ armed[c] /\ ~el[c]
+  /\ "due" \notin stim[c]
+  /\ \A x \in Callers : cpc[x] \notin {"sending", "cancelling"}
+  /\ el' = [el EXCEPT ![c] = TRUE]
+  /\ nel' = nel + 1
+  /\ dueNow' = IF WaitsShorter(c) THEN Append(dueNow, c) ELSE dueNow
+  /\ UNCHANGED <<ready, buf, rsched, lst, wst, wres, wspec, cpc, creq, mustc, expiring, armed, sfail, dead, susp,
+                 nfed, ncancel, ndue, nsf, nslow>>
+  /\ ObsSame
 
 \* nothing but the driver is ready: look at the list (quiescent moment)
 Observe ==
   /\ ready = <<D>> /\ dueNow = <<>> /\ ~quiet
-  /\ ObsQuiet(NDone)
+  /\ ObsQuiet(NDone, Len(lst))
   /\ UNCHANGED mech
 
 \* end of the iteration: due timers, then the driver again
@@ -312,7 +370,7 @@ DStep ==
   /\ Len(ready) > 1 \/ dueNow # <<>>
   /\ ready' = Tail(ready) \o [i \in 1..Len(dueNow) |-> [k |-> "tmo", c |-> dueNow[i]]] \o <<D>>
   /\ dueNow' = <<>>
-  /\ UNCHANGED <<buf, rsched, lst, wst, wres, wspec, cpc, creq, mustc, expiring, armed, sfail, dead, susp, nfed, ncancel, ndue, nsf, nslow>>
+  /\ UNCHANGED <<buf, rsched, lst, wst, wres, wspec, cpc, creq, mustc, expiring, armed, sfail, dead, susp, el, nfed, ncancel, ndue, nsf, nslow, nel>>
   /\ ObsSame
 
 \* ----- the library's handles --------------------------------------------------
@@ -326,60 +384,81 @@ Finish(c, o) ==
   /\ armed' = [armed EXCEPT ![c] = FALSE]
   /\ ObsOutcome(c, o)
 
+\* the negotiation creates its waiter when its request message is out (transfer/manager.py)
+RegistersFirst(c) == cspec[c].api # "place" \/ ~RegisterAfterSend
+
 \* first step of the caller: the waiter is appended to the list, then
-\*  wait/fut: timeout armed, await future;  exec: command.send() (SendHops slots)
+\*  wait/fut: timeout armed, await future;  exec: command.send() (SendHops slots);
+\*  place: send_peer_messages() (SendHops slots) first, the waiter afterwards
 First(c, rest) ==
   /\ cpc[c] = "spawned"
-  /\ lst' = Append(lst, c)
-  /\ wst' = [wst EXCEPT ![c] = "pending"]
-  /\ wspec' = [wspec EXCEPT ![c] = BuiltSpec(c)]
-  /\ IF cspec[c].api = "exec"
+  /\ IF RegistersFirst(c)
+       THEN /\ lst' = Append(lst, c)
+            /\ wst' = [wst EXCEPT ![c] = "pending"]
+            /\ wspec' = [wspec EXCEPT ![c] = BuiltSpec(c)]
+       ELSE UNCHANGED <<lst, wst, wspec>>
+  /\ IF UsesSend(cspec[c].api)
        THEN /\ cpc' = [cpc EXCEPT ![c] = "sending"]
             /\ ready' = Append(rest, [k |-> "hop", c |-> c, n |-> SendHops - 1])
             /\ UNCHANGED armed
        ELSE /\ cpc' = [cpc EXCEPT ![c] = "waiting"]
             /\ armed' = [armed EXCEPT ![c] = TRUE]
             /\ ready' = rest
-  /\ ObsAsk(c, cspec[c], sfail[c])
-  /\ UNCHANGED <<dueNow, buf, rsched, wres, creq, mustc, expiring, sfail, dead, susp, nfed, ncancel, ndue, nsf, nslow>>
+  /\ ObsAsk(c, cspec[c], sfail[c], cspec[c].api = "place")
+  /\ UNCHANGED <<dueNow, buf, rsched, wres, creq, mustc, expiring, sfail, dead, susp, el, nfed, ncancel, ndue, nsf, nslow, nel>>
 
-\* command.send() in progress / finished (client.py:272-283)
+\* command.send() / send_peer_messages() in progress / finished (client.py execute, transfer/manager.py)
 Hop(c, n, rest) ==
   IF n > 0 THEN
     /\ ready' = Append(rest, [k |-> "hop", c |-> c, n |-> n - 1])
     \* the write fails in the first slot of send(): the connection starts closing at once, nothing
-    \* that arrives on it afterwards is handled (connection.py:455-469, 299-323)
+    \* that arrives on it afterwards is handled (connection.py _send / _message_reader_loop)
     /\ dead' = IF sfail[c] /\ n = SendHops - 1 /\ cpc[c] = "sending" THEN dead \cup {cspec[c].conn} ELSE dead
-    /\ UNCHANGED <<dueNow, buf, rsched, lst, wst, wres, wspec, cpc, creq, mustc, expiring, armed, sfail, susp, nfed, ncancel, ndue, nsf, nslow>>
+    /\ UNCHANGED <<dueNow, buf, rsched, lst, wst, wres, wspec, cpc, creq, mustc, expiring, armed, sfail, susp, el, nfed, ncancel, ndue, nsf, nslow, nel>>
     /\ ObsSame
-  ELSE IF cpc[c] = "cancelling" THEN      \* CancelledError is not an Exception: the waiter stays registered
-    /\ ready' = rest
+  ELSE IF cpc[c] = "cancelling" THEN
+    \* CancelledError is not an Exception: execute() leaves its waiter registered unless ReleaseWhenSendCancelled
+    /\ IF cspec[c].api = "exec" /\ ReleaseWhenSendCancelled /\ wst[c] = "pending"
+         THEN /\ wst' = [wst EXCEPT ![c] = "cancelled"]
+              /\ ready' = Append(rest, [k |-> "rm", c |-> c])
+         ELSE /\ ready' = rest /\ UNCHANGED wst
     /\ Finish(c, [kind |-> "exc", j |-> 0, exc |-> "CancelledError"])
-    /\ UNCHANGED <<dueNow, buf, rsched, lst, wst, wres, wspec, creq, mustc, expiring, sfail, dead, susp, nfed, ncancel, ndue, nsf, nslow>>
-  ELSE IF sfail[c] THEN                    \* except Exception: response_future.cancel(); raise
-    /\ IF wst[c] = "pending"
+    /\ UNCHANGED <<dueNow, buf, rsched, lst, wres, wspec, creq, mustc, expiring, sfail, dead, susp, el, nfed, ncancel, ndue, nsf, nslow, nel>>
+  ELSE IF sfail[c] THEN                    \* execute(): except Exception: response_future.cancel(); raise
+    /\ IF cspec[c].api = "exec" /\ wst[c] = "pending"
          THEN /\ wst' = [wst EXCEPT ![c] = "cancelled"]
               /\ ready' = Append(rest, [k |-> "rm", c |-> c])
          ELSE /\ ready' = rest /\ UNCHANGED wst
     /\ Finish(c, [kind |-> "exc", j |-> 0, exc |-> "SendError"])
-    /\ UNCHANGED <<dueNow, buf, rsched, lst, wres, wspec, creq, mustc, expiring, sfail, dead, susp, nfed, ncancel, ndue, nsf, nslow>>
+    /\ UNCHANGED <<dueNow, buf, rsched, lst, wres, wspec, creq, mustc, expiring, sfail, dead, susp, el, nfed, ncancel, ndue, nsf, nslow, nel>>
   ELSE IF wst[c] = "result" THEN           \* the reply came during send(): await returns at once
     /\ ready' = rest
-    /\ Finish(c, [kind |-> "result", j |-> wres[c], exc |-> ""])
-    /\ UNCHANGED <<dueNow, buf, rsched, lst, wst, wres, wspec, creq, mustc, expiring, sfail, dead, susp, nfed, ncancel, ndue, nsf, nslow>>
+    /\ cpc' = [cpc EXCEPT ![c] = "done"]
+    /\ armed' = [armed EXCEPT ![c] = FALSE]
+    /\ out' = [out EXCEPT ![c] = IF outN[c] = 0 THEN [kind |-> "result", j |-> wres[c], exc |-> ""] ELSE @]
+    /\ outN' = [outN EXCEPT ![c] = @ + 1]
+    /\ regAt' = [regAt EXCEPT ![c] = IF @ = 0 THEN Len(hist) + 1 ELSE @]
+    /\ quiet' = FALSE
+    /\ UNCHANGED <<hist, fin, mayAt, infl, cspec, stim, resid, regn, broken>>
+    /\ UNCHANGED <<dueNow, buf, rsched, lst, wst, wres, wspec, creq, mustc, expiring, sfail, dead, susp, el, nfed, ncancel, ndue, nsf, nslow, nel>>
   ELSE
     /\ ready' = rest
     /\ cpc' = [cpc EXCEPT ![c] = "waiting"]
     /\ armed' = [armed EXCEPT ![c] = TRUE]
-    /\ UNCHANGED <<dueNow, buf, rsched, lst, wst, wres, wspec, creq, mustc, expiring, sfail, dead, susp, nfed, ncancel, ndue, nsf, nslow>>
-    /\ ObsSame
+    /\ IF wst[c] = "none"                   \* the negotiation: create_peer_response_future now
+         THEN /\ lst' = Append(lst, c)
+              /\ wst' = [wst EXCEPT ![c] = "pending"]
+              /\ wspec' = [wspec EXCEPT ![c] = BuiltSpec(c)]
+         ELSE UNCHANGED <<lst, wst, wspec>>
+    /\ IF regAt[c] = 0 THEN ObsSent(c) ELSE ObsSame
+    /\ UNCHANGED <<dueNow, buf, rsched, wres, creq, mustc, expiring, sfail, dead, susp, el, nfed, ncancel, ndue, nsf, nslow, nel>>
 
 \* StreamReader.feed_data: bytes buffered, the reader task woken once
 FeedData(conn, ms, rest) ==
   /\ buf' = [buf EXCEPT ![conn] = @ \o ms]
   /\ IF rsched[conn] THEN ready' = rest /\ UNCHANGED rsched
      ELSE ready' = Append(rest, [k |-> "read", conn |-> conn]) /\ rsched' = [rsched EXCEPT ![conn] = TRUE]
-  /\ UNCHANGED <<dueNow, lst, wst, wres, wspec, cpc, creq, mustc, expiring, armed, sfail, dead, susp, nfed, ncancel, ndue, nsf, nslow>>
+  /\ UNCHANGED <<dueNow, lst, wst, wres, wspec, cpc, creq, mustc, expiring, armed, sfail, dead, susp, el, nfed, ncancel, ndue, nsf, nslow, nel>>
   /\ ObsSame
 
 \* on_message_received, completion loop (network.py) for ONE message over the list L of waiter ids
@@ -433,7 +512,7 @@ ReaderStep(conn, ms, acc0, rest) ==
                           <<[m |-> ms[res.stop].m, idx |-> Len(hist) + Len(res.arr),
                              snap |-> SelectSeq(lst, LAMBDA x : res.w[x] = "pending"), rel |-> FALSE]>>]
   /\ ObsHandled(res.arr, res.fin, res.nerr)
-  /\ UNCHANGED <<dueNow, lst, wspec, cpc, creq, mustc, expiring, armed, sfail, dead, nfed, ncancel, ndue, nsf, nslow>>
+  /\ UNCHANGED <<dueNow, lst, wspec, cpc, creq, mustc, expiring, armed, sfail, dead, el, nfed, ncancel, ndue, nsf, nslow, nel>>
 
 Read(conn, rest) ==
   ReaderStep(conn, IF conn \in dead THEN <<>> ELSE buf[conn],
@@ -453,18 +532,18 @@ Resume(conn, rest) ==
 Remove(c, rest) ==
   /\ lst' = SelectSeq(lst, LAMBDA x : x # c)
   /\ ready' = rest
-  /\ UNCHANGED <<dueNow, buf, rsched, wst, wres, wspec, cpc, creq, mustc, expiring, armed, sfail, dead, susp, nfed, ncancel, ndue, nsf, nslow>>
+  /\ UNCHANGED <<dueNow, buf, rsched, wst, wres, wspec, cpc, creq, mustc, expiring, armed, sfail, dead, susp, el, nfed, ncancel, ndue, nsf, nslow, nel>>
   /\ ObsSame
 
 \* the caller resumes from `await future`
 Wake(c, rest) ==
   IF cpc[c] # "waiting" THEN
     /\ ready' = rest
-    /\ UNCHANGED <<dueNow, buf, rsched, lst, wst, wres, wspec, cpc, creq, mustc, expiring, armed, sfail, dead, susp, nfed, ncancel, ndue, nsf, nslow>>
+    /\ UNCHANGED <<dueNow, buf, rsched, lst, wst, wres, wspec, cpc, creq, mustc, expiring, armed, sfail, dead, susp, el, nfed, ncancel, ndue, nsf, nslow, nel>>
     /\ ObsSame
   ELSE
     /\ ready' = rest
-    /\ UNCHANGED <<dueNow, buf, rsched, lst, wst, wres, wspec, creq, mustc, expiring, sfail, dead, susp, nfed, ncancel, ndue, nsf, nslow>>
+    /\ UNCHANGED <<dueNow, buf, rsched, lst, wst, wres, wspec, creq, mustc, expiring, sfail, dead, susp, el, nfed, ncancel, ndue, nsf, nslow, nel>>
     /\ IF wst[c] = "cancelled" \/ mustc[c]
          THEN \* CancelledError at the await; asyncio.Timeout.__aexit__ turns it into TimeoutError iff the
               \* timeout's own cancel() is the only request (timeouts.py); wait_for_* then calls
@@ -480,13 +559,13 @@ Wake(c, rest) ==
 TimerFires(c, rest) ==
   IF ~armed[c] THEN                 \* the handle was cancelled when the caller left the context
     /\ ready' = rest
-    /\ UNCHANGED <<dueNow, buf, rsched, lst, wst, wres, wspec, cpc, creq, mustc, expiring, armed, sfail, dead, susp, nfed, ncancel, ndue, nsf, nslow>>
+    /\ UNCHANGED <<dueNow, buf, rsched, lst, wst, wres, wspec, cpc, creq, mustc, expiring, armed, sfail, dead, susp, el, nfed, ncancel, ndue, nsf, nslow, nel>>
     /\ ObsSame
   ELSE
     /\ armed' = [armed EXCEPT ![c] = FALSE]
     /\ expiring' = [expiring EXCEPT ![c] = TRUE]
     /\ TaskCancel(c, rest)
-    /\ UNCHANGED <<dueNow, buf, rsched, lst, wres, wspec, sfail, dead, susp, nfed, ncancel, ndue, nsf, nslow>>
+    /\ UNCHANGED <<dueNow, buf, rsched, lst, wres, wspec, sfail, dead, susp, el, nfed, ncancel, ndue, nsf, nslow, nel>>
     /\ ObsSame
 
 Run ==
@@ -503,9 +582,9 @@ Run ==
          [] h.k = "tmo"   -> TimerFires(h.c, rest)
 
 Next ==
-  \/ \E c \in Callers, s \in Specs, api \in Apis, fails \in BOOLEAN : Reg(c, s, api, fails)
+  \/ \E c \in Callers, s \in Specs, api \in Apis, fails \in BOOLEAN, tm \in Timeouts : Reg(c, s, api, fails, tm)
   \/ \E b \in Batches, sl \in 0..MaxBatch : Feed(b, sl)
-  \/ \E c \in Callers : Cancel(c) \/ Due(c)
+  \/ \E c \in Callers : Cancel(c) \/ Due(c) \/ Elapse(c)
   \/ \E conn \in Conns : Release(conn)
   \/ Observe
   \/ DStep
@@ -516,21 +595,23 @@ Spec == Init /\ [][Next]_vars
 \* ---------------------------------------------------------------------------
 \* Properties (observation layer only)
 
+Called(c) == mayAt[c] > 0
 Asked(c) == regAt[c] > 0
 \* the messages that answer c: those that came in after it asked ...
-Must(c) == {i \in regAt[c]..Len(hist) : Match(cspec[c], hist[i])}
-\* ... and, possibly, one that was being handled at that moment (its waiters not yet completed)
-May(c) == Must(c) \cup {i \in infl[c] : Match(cspec[c], hist[i])}
+Must(c) == IF Asked(c) THEN {i \in regAt[c]..Len(hist) : Match(cspec[c], hist[i])} ELSE {}
+\* ... and, possibly, one that came in after it entered the call but before its request was out, or
+\* that was being handled when it entered the call (its waiters not yet completed)
+May(c) == IF Called(c) THEN {i \in (mayAt[c]..Len(hist)) \cup infl[c] : Match(cspec[c], hist[i])} ELSE {}
 
 \* a request completes only with a message of the expected type, from the expected
 \* server/peer, carrying the expected field values, that was not finished before the request was made
 OnlyMatchingOf(c) ==
-  out[c].kind = "result" => (Asked(c) /\ out[c].j \in May(c))
+  out[c].kind = "result" => out[c].j \in May(c)
 OnlyMatching == \A c \in Callers : OnlyMatchingOf(c)
 
 \* ... and with the first such message
 FirstMatchingOf(c) ==
-  (out[c].kind = "result" /\ Asked(c) /\ out[c].j \in May(c)) => \A i \in Must(c) : i >= out[c].j
+  (out[c].kind = "result" /\ out[c].j \in May(c)) => \A i \in Must(c) : i >= out[c].j
 FirstMatching == \A c \in Callers : FirstMatchingOf(c)
 
 \* every request pending when an answering message is handled is completed by it: once the loop is
@@ -547,15 +628,17 @@ AtMostOnce == \A c \in Callers : outN[c] <= 1
 \* send failed; and an expired / cancelled caller does get its error (seen at quiescence)
 LegitError(c) ==
   out[c].kind = "exc" =>
-    \/ out[c].exc = "TimeoutError" /\ "due" \in stim[c]
+    \/ out[c].exc = "TimeoutError" /\ stim[c] \cap {"due", "maydue"} # {}
     \/ out[c].exc = "CancelledError" /\ "cancel" \in stim[c]
     \/ out[c].exc = "SendError" /\ "sendfail" \in stim[c]
-ErrorDelivered(c) == (Asked(c) /\ stim[c] \cap {"due", "cancel"} # {} /\ quiet) => out[c].kind # "none"
+ErrorDelivered(c) == (Called(c) /\ stim[c] \cap {"due", "cancel"} # {} /\ quiet) => out[c].kind # "none"
 TimeoutIsTimeoutOf(c) == LegitError(c) /\ ErrorDelivered(c)
 TimeoutIsTimeout == \A c \in Callers : TimeoutIsTimeoutOf(c)
 
-\* completed, timed-out or cancelled requests leave nothing registered
-NoResidue == quiet => resid = 0
+\* completed, timed-out or cancelled requests leave nothing registered: what is registered at a
+\* quiescent moment are the requests that are still waiting, none of them done
+Live == {c \in Callers : Asked(c) /\ out[c].kind = "none"}
+NoResidue == quiet => (resid = 0 /\ regn = 0)
 
 \* handling a message never raises because of waiter bookkeeping
 DeliveryUnbroken == broken = 0
